@@ -192,7 +192,9 @@ enum EC { NotFound, FileExists, DirExists, Other }
 fn parent(p: &str) -> String { match p.rfind('/') { Some(i) => p[..i].to_string(), None => String::new() } }
 fn children(m: &Model, d: &str) -> Vec<String> { let pre = format!("{}/", d); let mut v: Vec<String> = m.keys().filter(|k| k.starts_with(&pre) && !k[pre.len()..].contains('/')).map(|k| k[pre.len()..].to_string()).collect(); v.sort(); v }
 #[derive(Clone, Copy, Debug, PartialEq)]
-enum Op { CreateDir, CreateFile, Append, RemoveFile, RemoveDir, CreateDirAll, RemoveDirAll }
+enum Op { CreateDir, CreateFile, Append, RemoveFile, RemoveDir, CreateDirAll, RemoveDirAll, MoveTo, CopyTo }
+/// fixed destination of the MoveTo / CopyTo steps (a top-level name of the universe)
+const XFER_DEST: &str = "/mv";
 fn model_apply(m: &mut Model, op: Op, p: &str) -> Result<(), EC> {
     let par_ok = matches!(m.get(&parent(p)), Some(Node::Dir));
     match op {
@@ -211,6 +213,12 @@ fn model_apply(m: &mut Model, op: Op, p: &str) -> Result<(), EC> {
             }
             Ok(())
         }
+        // move_file / copy_file to the fixed destination: source must be a file, destination must not exist (C11); same filesystem, so a
+        // backend's own move_file / copy_file override is what runs
+        Op::MoveTo | Op::CopyTo => {
+            if m.contains_key(XFER_DEST) { return Err(EC::Other); }
+            match m.get(p).cloned() { Some(Node::File(b)) => { if op == Op::MoveTo { m.remove(p); } m.insert(XFER_DEST.into(), Node::File(b)); Ok(()) } _ => Err(EC::Other) }
+        }
         Op::RemoveDirAll => {
             match m.get(p) { None => Ok(()), Some(Node::File(_)) => Err(EC::Other),
                 Some(Node::Dir) => { let pre = format!("{}/", p); let ks: Vec<String> = m.keys().filter(|k| *k == p || k.starts_with(&pre)).cloned().collect(); for k in ks { m.remove(&k); } Ok(()) } }
@@ -227,6 +235,8 @@ fn real_apply(root: &VfsPath, op: Op, p: &str) -> VfsResult<()> {
         Op::RemoveDir => q.remove_dir(),
         Op::CreateDirAll => q.create_dir_all(),
         Op::RemoveDirAll => q.remove_dir_all(),
+        Op::MoveTo => q.move_file(&root.join(&XFER_DEST[1..])?),
+        Op::CopyTo => q.copy_file(&root.join(&XFER_DEST[1..])?),
     }
 }
 fn class_of(e: &vfs::VfsError) -> EC { match e.kind() { VfsErrorKind::FileNotFound => EC::NotFound, VfsErrorKind::FileExists => EC::FileExists, VfsErrorKind::DirectoryExists => EC::DirExists, _ => EC::Other } }
@@ -265,7 +275,7 @@ fn compare(root: &VfsPath, m: &Model, universe: &[&str]) -> Option<String> {
     None
 }
 fn universe_alias(_got: &str, _p: &str) -> bool { false }
-const UNIVERSE: [&str; 10] = ["", "/a", "/ab", "/a.b", "/a/b", "/a/b/c", "/é", "/é/x", "/.h", "/a\\z"];
+const UNIVERSE: [&str; 11] = ["", "/a", "/ab", "/a.b", "/a/b", "/a/b/c", "/é", "/é/x", "/.h", "/a\\z", "/mv"];
 fn make_backend(kind: &str) -> (VfsPath, Box<dyn Fn() -> Option<String>>) {
     match kind {
         "memory" => (MemoryFS::new().into(), Box::new(|| None)),
@@ -314,16 +324,23 @@ fn make_backend(kind: &str) -> (VfsPath, Box<dyn Fn() -> Option<String>>) {
 }
 fn oracle_tree(kind: &str, depth: usize, with_composites: bool) -> bool {
     let mut r = Report::new(&format!("tree.{}", kind));
-    let mut ops = vec![Op::CreateDir, Op::CreateFile, Op::Append, Op::RemoveFile, Op::RemoveDir];
+    let mut ops = vec![Op::CreateDir, Op::CreateFile, Op::Append, Op::RemoveFile, Op::RemoveDir, Op::MoveTo, Op::CopyTo];
     if with_composites { ops.push(Op::CreateDirAll); ops.push(Op::RemoveDirAll); }
     let steps: Vec<(Op, &str)> = ops.iter().flat_map(|o| UNIVERSE[1..].iter().map(move |p| (*o, *p))).collect();
     let mut seqs: Vec<Vec<(Op, &str)>> = vec![vec![]];
     for _ in 0..depth { let mut n = vec![]; for s in &seqs { for st in &steps { let mut t = s.clone(); t.push(*st); n.push(t); } } seqs = n; }
-    for seq in seqs {
+    // every sequence is run from the empty tree and from a populated one (nested directories with a file, a multi-byte directory, a prefix sibling)
+    for (populated, seq) in [false, true].iter().flat_map(|b| seqs.iter().map(move |s| (*b, s.clone()))) {
         r.case();
         let (root, extra) = make_backend(kind);
         let mut m: Model = BTreeMap::new();
         m.insert(String::new(), Node::Dir);
+        if populated {
+            for (p, c) in [("/a", None), ("/a/b", None), ("/a/b/c", Some(&b"c"[..])), ("/é", None), ("/ab", Some(&b"ab"[..]))] {
+                let q = root.join(&p[1..]).unwrap();
+                match c { None => { q.create_dir().unwrap(); m.insert(p.into(), Node::Dir); } Some(b) => { q.create_file().unwrap().write_all(b).unwrap(); m.insert(p.into(), Node::File(b.to_vec())); } }
+            }
+        }
         let res = catch_unwind(AssertUnwindSafe(|| {
             for (i, (op, p)) in seq.iter().enumerate() {
                 let want = model_apply(&mut m, *op, p);
@@ -339,6 +356,15 @@ fn oracle_tree(kind: &str, depth: usize, with_composites: bool) -> bool {
                             return Some(format!("step {} {:?}({:?}): error names path {:?}", i, op, p, ep));
                         }
                     }
+                    // a transfer whose source has the wrong type is left unspecified by C01; C03/C05 still bind the resulting state:
+                    // a directory that move_file accepts must have moved with its whole subtree (PhysicalFS renames it), anything else
+                    // shows up below as an orphan or an inconsistent observation. A directory accepted by copy_file ends the sequence.
+                    (Ok(()), Err(_)) if *op == Op::MoveTo && matches!(m.get(*p), Some(Node::Dir)) && !m.contains_key(XFER_DEST) && *p != XFER_DEST => {
+                        let pre = format!("{}/", p);
+                        let ks: Vec<String> = m.keys().filter(|k| *k == p || k.starts_with(&pre)).cloned().collect();
+                        for k in ks { let n = m.remove(&k).unwrap(); m.insert(format!("{}{}", XFER_DEST, &k[p.len()..]), n); }
+                    }
+                    (Ok(()), Err(_)) if *op == Op::CopyTo && matches!(m.get(*p), Some(Node::Dir)) => return None,
                     (g, w) => return Some(format!("step {} {:?}({:?}): got {:?}, model {:?}", i, op, p, g.as_ref().map_err(|e| e.to_string()), w)),
                 }
                 if let Some(d) = compare(&root, &m, &UNIVERSE) { return Some(format!("after step {} {:?}({:?}): {}", i, op, p, d)); }
@@ -346,7 +372,7 @@ fn oracle_tree(kind: &str, depth: usize, with_composites: bool) -> bool {
             }
             None
         }));
-        match res { Err(_) => r.fail(format!("{:?}", seq), "panicked".into()), Ok(Some(d)) => r.fail(format!("{:?}", seq), d), Ok(None) => {} }
+        match res { Err(_) => r.fail(format!("populated={} {:?}", populated, seq), "panicked".into()), Ok(Some(d)) => r.fail(format!("populated={} {:?}", populated, seq), d), Ok(None) => {} }
     }
     r.done()
 }
@@ -432,6 +458,8 @@ fn oracle_union(depth: usize) -> bool {
             l1.join("e").unwrap().create_dir().unwrap();
             l2.join("f").unwrap().create_file().unwrap().write_all(b"f2").unwrap();
             l2.join("h").unwrap().create_file().unwrap().write_all(b"h2").unwrap();
+            // names ending in "_wo" are reserved by the overlay (C01 leaves them unspecified) and are not generated: on the pinned tree the marker of
+            // "/f" (.whiteout/f_wo) collides with the marker folder of a directory "/f_wo"
             l2.join("d").unwrap().create_dir().unwrap();
             let mut m: Model = BTreeMap::new();
             m.insert(String::new(), Node::Dir);
@@ -680,6 +708,183 @@ fn oracle_copydir() -> bool {
     r.done()
 }
 
+// ------------------------------------------------------------------------------------------------ timestamps (C19)
+/// set_{creation,modification,access}_time over all fields x all ordered pairs of fields x a list of instants (epoch, sub-second parts, before
+/// the epoch, far future) on files, directories and the root, for memory / physical backends and adapters over them. Overlay targets live in the
+/// upper layer (the lower-layer case is the input class of the known findings overlay.set_*_time.serves_lower).
+fn oracle_times() -> bool {
+    use std::time::{Duration, SystemTime, UNIX_EPOCH};
+    let mut r = Report::new("times");
+    #[derive(Clone, Copy, Debug, PartialEq)]
+    enum F { C, M, A }
+    let all_times: Vec<SystemTime> = vec![UNIX_EPOCH, UNIX_EPOCH + Duration::new(1_000_000, 250_000_000), UNIX_EPOCH + Duration::new(4_000_000_000, 999_999_999),
+        UNIX_EPOCH - Duration::new(1, 500_000_000), UNIX_EPOCH - Duration::new(86_400 * 365, 0), UNIX_EPOCH + Duration::new(1, 1), UNIX_EPOCH - Duration::new(0, 1)];
+    // which instants the host filesystem can store at all (std only, no vfs code involved)
+    let host_ok: Vec<bool> = {
+        let d = std::env::temp_dir().join(format!("vfs-oracle-cal-{}", std::process::id()));
+        let _ = std::fs::create_dir_all(&d);
+        let f = d.join("cal");
+        std::fs::write(&f, b"x").unwrap();
+        let v = all_times.iter().map(|t| {
+            let h = std::fs::File::options().write(true).open(&f).unwrap();
+            h.set_times(std::fs::FileTimes::new().set_modified(*t).set_accessed(*t)).is_ok()
+                && std::fs::metadata(&f).map(|m| m.modified().ok() == Some(*t) && m.accessed().ok() == Some(*t)).unwrap_or(false)
+        }).collect();
+        let _ = std::fs::remove_dir_all(&d);
+        v
+    };
+    fn set(q: &VfsPath, f: F, t: SystemTime) -> VfsResult<()> { match f { F::C => q.set_creation_time(t), F::M => q.set_modification_time(t), F::A => q.set_access_time(t) } }
+    for kind in ["memory", "altroot", "overlay", "physical", "altroot.physical"] {
+        let physical = kind.contains("physical");
+        for target in ["f", "d", ""] {
+            for f1 in [F::C, F::M, F::A] { for f2 in [F::C, F::M, F::A] { for i1 in 0..all_times.len() {
+                let i2 = (i1 + 3) % all_times.len();
+                if physical && !(host_ok[i1] && host_ok[i2]) { continue; }
+                let (t1, t2) = (all_times[i1], all_times[i2]);
+                r.case();
+                let (base, extra) = make_backend(if physical { "physical" } else { kind });
+                let root: VfsPath = if kind == "altroot.physical" { base.join("r").unwrap().create_dir().unwrap(); AltrootFS::new(base.join("r").unwrap()).into() } else { base.clone() };
+                root.join("f").unwrap().create_file().unwrap().write_all(b"abc").unwrap();
+                root.join("d").unwrap().create_dir().unwrap();
+                let q = if target.is_empty() { root.clone() } else { root.join(target).unwrap() };
+                let res = catch_unwind(AssertUnwindSafe(|| {
+                    let mut cur = match q.metadata() { Ok(m) => m, Err(e) => return Some(format!("metadata failed: {}", e)) };
+                    for (step, (f, t)) in [(f1, t1), (f2, t2)].iter().enumerate() {
+                        let got = set(&q, *f, *t);
+                        let md = match q.metadata() { Ok(m) => m, Err(e) => return Some(format!("metadata failed after step {}: {}", step, e)) };
+                        match got {
+                            Ok(()) => {
+                                let (c, m, a) = match f { F::C => (Some(*t), cur.modified, cur.accessed), F::M => (cur.created, Some(*t), cur.accessed), F::A => (cur.created, cur.modified, Some(*t)) };
+                                if md.created != c || md.modified != m || md.accessed != a { return Some(format!("step {} set {:?} to {:?}: metadata reports created {:?} modified {:?} accessed {:?}, expected {:?} {:?} {:?}", step, f, t, md.created, md.modified, md.accessed, c, m, a)); }
+                            }
+                            Err(e) => {
+                                if !matches!(e.kind(), VfsErrorKind::NotSupported) { return Some(format!("step {} set {:?}: error {:?} on an existing entry (only not-supported is allowed)", step, f, e.kind())); }
+                                if md.created != cur.created || md.modified != cur.modified || md.accessed != cur.accessed { return Some(format!("step {} set {:?} failed but changed a timestamp", step, f)); }
+                            }
+                        }
+                        if md.len != cur.len || md.file_type != cur.file_type { return Some(format!("step {} set {:?}: len/type changed", step, f)); }
+                        cur = md;
+                    }
+                    if root.join("f").unwrap().read_to_string().ok().as_deref() != Some("abc") { return Some("bytes of /f changed".into()); }
+                    if root.join("d").unwrap().read_dir().map(|it| it.count()).unwrap_or(99) != 0 { return Some("/d is no longer an empty directory".into()); }
+                    // appending preserves the creation time (in-memory backends)
+                    if !physical && target == "f" {
+                        let before = q.metadata().unwrap();
+                        q.append_file().unwrap().write_all(b"x").unwrap();
+                        let after = q.metadata().unwrap();
+                        if after.created != before.created || after.len != 4 { return Some(format!("append changed created {:?} -> {:?} (len {})", before.created, after.created, after.len)); }
+                        // ... also when the creation time is set while the append handle is still open
+                        let mut h = q.append_file().unwrap();
+                        h.write_all(b"y").unwrap();
+                        if q.set_creation_time(t2).is_ok() {
+                            drop(h);
+                            let md = q.metadata().unwrap();
+                            if md.created != Some(t2) || md.len != 5 { return Some(format!("creation time set during an append session is reported as {:?} after the commit, expected {:?} (len {})", md.created, t2, md.len)); }
+                        }
+                    }
+                    extra()
+                }));
+                let what = format!("backend={} target={:?} {:?}@{:?} then {:?}@{:?}", kind, target, f1, t1, f2, t2);
+                match res { Err(_) => r.fail(what, "panicked".into()), Ok(Some(d)) => r.fail(what, d), Ok(None) => {} }
+            } } }
+        }
+    }
+    r.done()
+}
+
+// ------------------------------------------------------------------------------------------------ handles that outlive their file (C13, C04)
+fn oracle_handles() -> bool {
+    let mut r = Report::new("handles");
+    for kind in ["memory", "altroot", "overlay"] {
+        for scenario in 0..6 {
+            r.case();
+            let (root, _extra) = make_backend(kind);
+            root.join("d").unwrap().create_dir().unwrap();
+            let f = root.join("d/f").unwrap();
+            f.create_file().unwrap().write_all(b"abc").unwrap();
+            let res = catch_unwind(AssertUnwindSafe(|| {
+                match scenario {
+                    0 => { let mut h = f.create_file().unwrap(); h.write_all(b"ab").unwrap(); f.remove_file().unwrap(); let _ = h.write_all(b"c"); let _ = h.flush(); drop(h); }
+                    1 => { let mut h = f.append_file().unwrap(); h.write_all(b"d").unwrap(); f.remove_file().unwrap(); drop(h); }
+                    2 => { let mut h = f.append_file().unwrap(); h.write_all(b"d").unwrap(); root.join("d").unwrap().remove_dir_all().unwrap(); let _ = h.flush(); drop(h); }
+                    3 => { let mut h = f.open_file().unwrap(); f.remove_file().unwrap(); let mut b = vec![]; let _ = h.read_to_end(&mut b); let _ = h.seek(SeekFrom::End(-1)); let _ = h.read(&mut [0u8; 4]); }
+                    4 => { let mut h = f.create_file().unwrap(); h.write_all(b"xy").unwrap(); let _ = h.seek(SeekFrom::Start(10)); f.remove_file().unwrap(); let _ = f.create_file().map(|mut g| g.write_all(b"other")); drop(h); }
+                    _ => { let h1 = f.append_file().unwrap(); let mut h2 = f.append_file().unwrap(); h2.write_all(b"2").unwrap(); drop(h2); f.remove_file().unwrap(); drop(h1); }
+                }
+                // the filesystem is still usable (no poisoned lock, no panic on later calls)
+                let o = root.join("other").unwrap();
+                if let Err(e) = o.create_file().and_then(|mut h| { h.write_all(b"ok")?; Ok(()) }) { return Some(format!("filesystem unusable afterwards: {}", e)); }
+                if o.read_to_string().ok().as_deref() != Some("ok") { return Some("filesystem unusable afterwards: wrong content".into()); }
+                if root.walk_dir().map(|w| w.filter(|e| e.is_err()).count()).unwrap_or(1) != 0 { return Some("walk_dir fails afterwards".into()); }
+                None
+            }));
+            let what = format!("backend={} scenario={}", kind, scenario);
+            match res { Err(_) => r.fail(what, "panicked".into()), Ok(Some(d)) => r.fail(what, d), Ok(None) => {} }
+        }
+    }
+    r.done()
+}
+
+// ------------------------------------------------------------------------------------------------ hostile directory content (C13, C05)
+#[cfg(unix)]
+fn oracle_hostile() -> bool {
+    use std::os::unix::ffi::OsStrExt;
+    let mut r = Report::new("hostile.physical");
+    let dir = std::env::temp_dir().join(format!("vfs-oracle-hostile-{}", std::process::id()));
+    for op in 0..14 {
+        r.case();
+        let _ = std::fs::remove_dir_all(&dir);
+        std::fs::create_dir_all(dir.join("root/realdir")).unwrap();
+        std::fs::write(dir.join("root/realdir/inner"), b"i").unwrap();
+        std::fs::write(dir.join("root/plain"), b"p").unwrap();
+        std::os::unix::fs::symlink(dir.join("root/no_such_target"), dir.join("root/dangling")).unwrap();
+        std::os::unix::fs::symlink(dir.join("root/realdir"), dir.join("root/ldir")).unwrap();
+        std::os::unix::fs::symlink(dir.join("root/plain"), dir.join("root/lfile")).unwrap();
+        let bad = std::ffi::OsStr::from_bytes(b"bad\xffname");
+        let have_bad = std::fs::write(dir.join("root").join(bad), b"b").is_ok();
+        let root: VfsPath = vfs::PhysicalFS::new(dir.join("root")).into();
+        let res = catch_unwind(AssertUnwindSafe(|| {
+            let mut names: Vec<String> = match root.read_dir() { Ok(it) => it.map(|p| p.filename()).collect(), Err(e) => return Some(format!("read_dir(root) failed: {}", e)) };
+            if names.len() != if have_bad { 6 } else { 5 } { return Some(format!("root lists {:?}", names)); }
+            names.sort();
+            for n in &names {
+                let q = match root.join(n) { Ok(q) => q, Err(_) => continue };
+                // consistency (C05): an entry whose metadata can be read is a directory iff it can be listed
+                if let Ok(md) = q.metadata() {
+                    let listable = q.read_dir().is_ok();
+                    if (md.file_type == VfsFileType::Directory) != listable { return Some(format!("{:?}: metadata says {:?} but read_dir {}", n, md.file_type, if listable { "succeeds" } else { "fails" })); }
+                    if q.is_dir().ok() != Some(listable) { return Some(format!("{:?}: is_dir disagrees with read_dir", n)); }
+                }
+                let dest = root.join("zz_dest").unwrap();
+                match op {
+                    0 => { let _ = q.exists(); let _ = q.is_file(); let _ = q.is_dir(); }
+                    1 => { let _ = q.metadata(); }
+                    2 => { let _ = q.read_dir().map(|it| it.count()); }
+                    3 => { if let Ok(mut h) = q.open_file() { let mut b = vec![]; let _ = h.read_to_end(&mut b); } }
+                    4 => { let _ = q.create_dir(); }
+                    5 => { let _ = q.create_dir_all(); }
+                    6 => { let _ = q.create_file().map(|mut h| h.write_all(b"w")); }
+                    7 => { let _ = q.append_file().map(|mut h| h.write_all(b"w")); }
+                    8 => { let _ = q.remove_file(); }
+                    9 => { let _ = q.remove_dir(); }
+                    10 => { let _ = q.remove_dir_all(); }
+                    11 => { let _ = q.set_modification_time(std::time::SystemTime::UNIX_EPOCH); let _ = q.set_access_time(std::time::SystemTime::UNIX_EPOCH); let _ = q.set_creation_time(std::time::SystemTime::UNIX_EPOCH); }
+                    12 => { let _ = q.copy_file(&dest); let _ = dest.remove_file(); let _ = q.move_file(&dest); }
+                    _ => { let _ = q.copy_dir(&dest); let _ = q.read_to_string(); }
+                }
+            }
+            if let Ok(w) = root.walk_dir() { for e in w { let _ = e; } }
+            None
+        }));
+        let what = format!("operation #{} on every entry of a directory holding a dangling symlink, symlinks to a directory and to a file, and a non-UTF-8 name", op);
+        match res { Err(_) => r.fail(what, "panicked".into()), Ok(Some(d)) => r.fail(what, d), Ok(None) => {} }
+    }
+    let _ = std::fs::remove_dir_all(&dir);
+    r.done()
+}
+#[cfg(not(unix))]
+fn oracle_hostile() -> bool { true }
+
 fn main() {
     let args: Vec<String> = std::env::args().skip(1).collect();
     let deep = args.iter().any(|a| a == "--deep");
@@ -702,6 +907,9 @@ fn main() {
             "transfer" => oracle_transfer(),
             "copydir" => oracle_copydir(),
             "faults" => oracle_faults(),
+            "times" => oracle_times(),
+            "handles" => oracle_handles(),
+            "hostile.physical" => oracle_hostile(),
             other => { println!("UNKNOWN {}", other); false }
         };
     }
